@@ -5,10 +5,10 @@ go 1.21
 require (
 	github.com/anishathalye/porcupine v1.3.0
 	github.com/elastic/go-txfile v0.0.0
+	github.com/gofrs/flock v0.7.1
 )
 
 require (
-	github.com/gofrs/flock v0.7.1 // indirect
 	github.com/magefile/mage v1.9.0 // indirect
 	github.com/urso/go-bin v0.0.0-20180220135811-781c575c9f0e // indirect
 	github.com/urso/magetools v0.0.0-20190919040553-290c89e0c230 // indirect
